@@ -392,7 +392,25 @@ fn rand_adp(
     p.cases(gen_name, n, |i, out| {
         let mut rng = Rng::new(mix(seed, mix(hash_of(&gen_name), i)));
         let (chain, batched) = chain_gen(&mut rng);
-        let h = gen_adp_history(&mut rng, chain, batched, g);
+        let mut h = gen_adp_history(&mut rng, chain, batched, g);
+        if gen_name.ends_with("-scale") && i % 3 == 0 {
+            // a regular bulk load instead of random traffic: thousands of push_backs (single updates waiting in the
+            // channel, or one transaction), a limit change in the thousands now and then, then one poll - one batch
+            // of a batched chain carries thousands of diffs of one kind
+            let n = rng.range(2200, 6000);
+            let mut ops: Vec<AOp> = vec![AOp::Poll(0)];
+            let pushes: Vec<VOp> = (0..n).map(|k| VOp::PushBack((k % 17) as u32)).collect();
+            if n <= h.capacity && rng.chance(1, 2) {
+                ops.extend(pushes.into_iter().map(AOp::Src));
+            } else {
+                ops.push(AOp::Src(VOp::Txn(pushes, TxEnd::Commit)));
+            }
+            ops.push(AOp::Poll(0));
+            ops.push(AOp::Src(VOp::PopFront));
+            ops.push(AOp::Poll(0));
+            h.ops = ops;
+            h.eager = false;
+        }
         judge_adp(prop, &h, &p.known, json!({"gen": gen_name, "case": i, "seed": seed}), out, nontrivial);
     })
 }
@@ -794,7 +812,7 @@ pub fn run_c12(p: &Params) -> Outcome {
     }, &nt));
     // giant vectors under two-stage chains, and deep chains (four to seven stages) over ordinary ones
     let ggiant = AGen { maxlen: 9500, init_max: 9000, vmax: 20_000, min_ops: 8, max_ops: 24, ..g.clone() };
-    out.merge(rand_adp("C12", p, "c12-rand-giant", p.n(120, 3_000), &ggiant, &|rng| {
+    out.merge(rand_adp("C12", p, "c12-rand-giant", p.n(500, 8_000), &ggiant, &|rng| {
         ((0..2).map(|_| gen_stage(rng, ALL_PKS, 9000)).collect(), rng.chance(1, 2))
     }, &nt));
     out.merge(rand_adp("C12", p, "c12-rand-deep", p.n(4_000, 100_000), &g, &|rng| {
